@@ -470,6 +470,8 @@ I_Union    == AllIsUnion \/ Cex("AllIsUnion")
 I_Nonce    == NonceTracksPending \/ Cex("NonceTracksPending")
 
 NoGoal == ~goal \/ Cex("goal:" \o Goal)
+\* the goal predicates are replaced by this one in runs with -coverage (TLC's cost model exhausts the heap on them)
+False2(x, y) == FALSE
 
 \* ---------------------------------------------------------------- generation
 Leaf == (GenMode = "leaf" /\ nops = MaxOps) => PrintT("@@J " \o ToJson([kind |-> "B", h |-> hist]))
